@@ -1,6 +1,596 @@
-//! C07 — monitor not written yet.
-use crate::ctx::Ctx;
+//! C07 — `Signature::verify` accepts exactly the Pointcheval-Sanders relation.
+//!
+//! Oracle: `refs::ps_verify_ref` (sigma1 != 1 and e(sigma1, X~ * prod Y~i^mi) = e(sigma2, g~)),
+//! evaluated with `bls12_381::pairing` on atoms read from the wire form of the public key and of
+//! the signature. Every call of `Signature::verify` made here is compared with the oracle; on top
+//! of that the consequences the property names are checked against a fixed expectation: a
+//! signature derived through the API verifies on its message, and no longer verifies after a
+//! single-coordinate change, under another key, or after unblinding with a wrong blinding factor;
+//! the all-identity signature (reached through the API with a scripted RNG) never verifies.
+
+use crate::ctx::{guard, hex, Ctx};
+use crate::props::util::repo_rel;
+use crate::refs::{self, ps_pairing_only, ps_verify_ref, q_minus_1, PkAtoms};
+use crate::srng::ScriptRng;
+use crate::tracer::trace;
+use crate::wire::{self, dec, enc};
+use bls12_381::{G1Affine, G1Projective, Scalar};
+use ff::Field;
+use group::Curve;
+use rand_core::RngCore;
+use serde_json::{json, Value};
+use zkchannels_crypto::{
+    pointcheval_sanders::{BlindedSignature, KeyPair, PublicKey, Signature},
+    proofs::{ChallengeBuilder, SignatureRequestProofBuilder},
+    BlindingFactor, Message,
+};
+
+// ------------------------------------------------------------------------------------------
+// shared input generators (also used by the C08 monitor)
+// ------------------------------------------------------------------------------------------
+
+pub(crate) const EDGE_NAMES: [&str; 7] = ["0", "1", "q-1", "small", "2^63-1", "2^63", "random"];
+
+/// One entry of EDGE = {0, 1, q-1, small, 2^63-1, 2^63, random}.
+pub(crate) fn edge_scalar(class: usize, rng: &mut impl RngCore) -> Scalar {
+    match class % 7 {
+        0 => Scalar::zero(),
+        1 => Scalar::one(),
+        2 => q_minus_1(),
+        3 => Scalar::from(2 + (rng.next_u32() % 65_534) as u64),
+        4 => Scalar::from(i64::MAX as u64),
+        5 => Scalar::from(1u64 << 63),
+        _ => Scalar::random(&mut *rng),
+    }
+}
+
+pub(crate) struct Msg<const N: usize> {
+    pub vals: [Scalar; N],
+    pub classes: [usize; N],
+    /// the per-coordinate classes, e.g. "0.q-1.random"
+    pub name: String,
+}
+
+/// Message number `mi`: 0..7 all coordinates of one EDGE class; 7..14 the EDGE classes laid out
+/// cyclically from a shifting start; from 14 on every coordinate draws its class at random.
+pub(crate) fn edge_message<const N: usize>(mi: usize, rng: &mut impl RngCore) -> Msg<N> {
+    let mut vals = [Scalar::zero(); N];
+    let mut classes = [0usize; N];
+    for i in 0..N {
+        let cl = if mi < 7 {
+            mi
+        } else if mi < 14 {
+            (i + mi - 7) % 7
+        } else {
+            (rng.next_u32() % 7) as usize
+        };
+        classes[i] = cl;
+        vals[i] = edge_scalar(cl, rng);
+    }
+    let name = classes.iter().map(|c| EDGE_NAMES[*c]).collect::<Vec<_>>().join(".");
+    Msg { vals, classes, name }
+}
+
+pub(crate) fn msg_hex(m: &[Scalar]) -> Vec<String> {
+    m.iter().map(|s| hex(&s.to_bytes())).collect()
+}
+
+pub(crate) const BF_NAMES: [&str; 4] = ["0", "1", "q-1", "random"];
+
+/// A blinding factor with a chosen scalar, obtained the way a program can obtain one: from the wire.
+pub(crate) fn bf_from_scalar(s: &Scalar) -> Result<BlindingFactor, String> {
+    dec::<BlindingFactor>(&s.to_bytes())
+}
+
+pub(crate) fn bf_of_class(class: usize, rng: &mut (impl RngCore + rand_core::CryptoRng)) -> Result<BlindingFactor, String> {
+    match class % 4 {
+        0 => bf_from_scalar(&Scalar::zero()),
+        1 => bf_from_scalar(&Scalar::one()),
+        2 => bf_from_scalar(&q_minus_1()),
+        _ => Ok(BlindingFactor::new(rng)),
+    }
+}
+
+/// Deterministic key pair number `k` for tuple length N (the same in every case that names it).
+pub(crate) fn keypair<const N: usize>(c: &Ctx, k: usize, other: bool) -> KeyPair<N> {
+    let mut rng = c.rng(&format!("key/N={}/{}{}", N, k, if other { "/other" } else { "" }));
+    KeyPair::<N>::new(&mut rng)
+}
+
+pub(crate) struct SigAtoms {
+    pub s1: G1Affine,
+    pub s2: G1Affine,
+    pub b1: Vec<u8>,
+    pub b2: Vec<u8>,
+}
+
+/// sigma1 / sigma2 read from the wire form of a signature
+pub(crate) fn sig_atoms(sig: &Signature) -> Result<SigAtoms, String> {
+    let t = trace(sig)?;
+    let b1 = t.fget("sigma1")?;
+    let b2 = t.fget("sigma2")?;
+    let s1 = refs::g1(&b1).ok_or("C07: sigma1 of an in-memory signature does not decompress")?;
+    let s2 = refs::g1(&b2).ok_or("C07: sigma2 of an in-memory signature does not decompress")?;
+    Ok(SigAtoms { s1, s2, b1, b2 })
+}
+
+// ------------------------------------------------------------------------------------------
+// the comparison
+// ------------------------------------------------------------------------------------------
+
+struct Env<'a, const N: usize> {
+    pk: &'a PublicKey<N>,
+    pka: &'a PkAtoms,
+}
+
+/// Compare `Signature::verify` with the oracle on one triple. `class` names the kind of triple
+/// (counter and signature key); `expect` is the verdict the property statement itself fixes for
+/// this class, if any. Returns the library's answer.
+fn compare<const N: usize>(
+    c: &mut Ctx,
+    env: &Env<N>,
+    class: &str,
+    sig: &Signature,
+    m: &[Scalar; N],
+    expect: Option<bool>,
+    info: &Value,
+) -> Option<bool> {
+    let atoms = match sig_atoms(sig) {
+        Ok(a) => a,
+        Err(e) => {
+            c.inconclusive(&e);
+            return None;
+        }
+    };
+    let oracle = ps_verify_ref(env.pka, &atoms.s1, &atoms.s2, m);
+    let msg = Message::new(*m);
+    let lib = guard(|| sig.verify(env.pk, &msg));
+    c.eval();
+    let detail = |lib: Value| {
+        json!({
+            "N": N, "class": class, "library": lib, "oracle": oracle,
+            "sigma1": hex(&atoms.b1), "sigma2": hex(&atoms.b2), "message": msg_hex(m),
+            "public_key": hex(&enc(env.pk)), "info": info,
+        })
+    };
+    let lib = match lib {
+        Ok(v) => v,
+        Err(p) => {
+            c.violation(
+                &format!("C07 verify-panicked N={} case={} loc={}", N, class, repo_rel(&p.location)),
+                detail(json!(format!("panic: {}", p.message))),
+            );
+            return None;
+        }
+    };
+    c.count(&format!("{}:{}", class, if lib { "accepted" } else { "rejected" }), 1);
+    if lib != oracle {
+        c.violation(&format!("C07 verify-disagrees-with-relation N={} case={}", N, class), detail(json!(lib)));
+    } else if let Some(e) = expect {
+        if lib != e {
+            let what = if e { "derived-signature-rejected" } else { "accepted-what-must-not-verify" };
+            c.violation(&format!("C07 {} N={} case={}", what, N, class), detail(json!(lib)));
+        }
+    }
+    Some(lib)
+}
+
+/// Honest blind-signing path: request proof -> verified blinded message -> blind signature.
+fn blind_sign_path<const N: usize>(
+    c: &mut Ctx,
+    rng: &mut (impl RngCore + rand_core::CryptoRng),
+    kp: &KeyPair<N>,
+    m: &[Scalar; N],
+) -> Option<(BlindedSignature, BlindingFactor)> {
+    let builder = SignatureRequestProofBuilder::<N>::generate_proof_commitments(&mut *rng, Message::new(*m), &[None; N], kp.public_key());
+    let challenge = ChallengeBuilder::new().with(&builder).finish();
+    let bf = builder.message_blinding_factor();
+    let proof = builder.generate_proof_response(challenge);
+    match proof.verify_knowledge_of_opening(kp.public_key(), challenge) {
+        Some(vbm) => Some((vbm.blind_sign(kp, &mut *rng), bf)),
+        None => {
+            // completeness of the request proof is C08 / C10; here the path cannot be observed
+            c.inconclusive("C07: honest signature request did not verify, blind-sign path unobservable");
+            None
+        }
+    }
+}
+
+fn chain_case<const N: usize>(c: &mut Ctx, name: &str, k: usize, mi: usize) {
+    let mut rng = c.rng(name);
+    let kp = keypair::<N>(c, k, false);
+    let kp2 = keypair::<N>(c, k, true);
+    let (pka, pka2) = match (PkAtoms::from_value(kp.public_key()), PkAtoms::from_value(kp2.public_key())) {
+        (Ok(a), Ok(b)) => (a, b),
+        (Err(e), _) | (_, Err(e)) => return c.inconclusive(&e),
+    };
+    if pka.n() != N || pka2.n() != N {
+        return c.inconclusive("C07: public key atoms do not have N entries");
+    }
+    let env = Env { pk: kp.public_key(), pka: &pka };
+    let env2 = Env { pk: kp2.public_key(), pka: &pka2 };
+    let m = edge_message::<N>(mi, &mut rng);
+    let msg = Message::new(m.vals);
+    let thorough = c.tier.pick(false, true);
+
+    // --- derivation chain
+    let mut chain: Vec<String> = vec![];
+    let mut sig: Signature;
+    if (mi + k) % 2 == 1 {
+        let Some((bs, bf)) = blind_sign_path(c, &mut rng, &kp, &m.vals) else { return };
+        sig = bs.unblind(bf);
+        chain.push("blind-sign>unblind".into());
+        // the same blind signature, wrong factor
+        let info = json!({"chain": chain, "blinding_factor": hex(&bf.as_scalar().to_bytes())});
+        match bf_from_scalar(&(bf.as_scalar() + Scalar::one())) {
+            Ok(w) => {
+                let wrong = bs.unblind(w);
+                c.distinct(&format!("N={}/key={}/msg={}/blind-sign/wrong-bf+1", N, k, m.name));
+                let _ = compare(c, &env, "blind-sign-wrong-blinding-factor", &wrong, &m.vals, Some(false), &info);
+            }
+            Err(e) => c.inconclusive(&e),
+        }
+    } else {
+        sig = msg.sign(&mut rng, &kp);
+        chain.push("sign".into());
+    }
+    c.distinct(&format!("N={}/key={}/msg={}/chain={}/right", N, k, m.name, chain.join(">")));
+    let _ = compare(c, &env, "right-message", &sig, &m.vals, Some(true), &json!({"chain": chain}));
+
+    let nsteps = (rng.next_u32() % 4) as usize;
+    for _ in 0..nsteps {
+        match rng.next_u32() % 3 {
+            0 => {
+                sig.randomize(&mut rng);
+                chain.push("randomize".into());
+            }
+            s => {
+                let bfc = (rng.next_u32() % 4) as usize;
+                let bf = match bf_of_class(bfc, &mut rng) {
+                    Ok(b) => b,
+                    Err(e) => return c.inconclusive(&e),
+                };
+                let mut bs = sig.blind_and_randomize(&mut rng, bf);
+                if s == 2 {
+                    bs.randomize(&mut rng);
+                    chain.push(format!("blind(bf={})>randomize>unblind", BF_NAMES[bfc]));
+                } else {
+                    chain.push(format!("blind(bf={})>unblind", BF_NAMES[bfc]));
+                }
+                sig = bs.unblind(bf);
+            }
+        }
+        c.distinct(&format!("N={}/key={}/msg={}/chain={}/right", N, k, m.name, chain.join(">")));
+        let _ = compare(c, &env, "right-message", &sig, &m.vals, Some(true), &json!({"chain": chain}));
+    }
+    let chain_s = chain.join(">");
+    let info = json!({"chain": chain, "message_classes": m.name});
+    let key = format!("N={}/key={}/msg={}/chain={}", N, k, m.name, chain_s);
+    c.count(&format!("chains_of_length_{}", chain.len()), 1);
+    c.count(&format!("chains_starting_with_{}", chain[0]), 1);
+    if mi < 2 {
+        if let Ok(a) = sig_atoms(&sig) {
+            c.sample(json!({"kind": "derived signature", "N": N, "key": k, "message_classes": m.name, "chain": chain_s,
+                            "sigma1": hex(&a.b1), "sigma2": hex(&a.b2), "message": msg_hex(&m.vals)}));
+        }
+    }
+
+    // --- every single-coordinate change of the message
+    for j in 0..N {
+        let mut kinds: Vec<&str> = vec!["+1", "random"];
+        if thorough || j == mi % N {
+            kinds.push("other-edge");
+            kinds.push("-1");
+        }
+        for kind in kinds {
+            let mut m2 = m.vals;
+            m2[j] = match kind {
+                "+1" => m.vals[j] + Scalar::one(),
+                "-1" => m.vals[j] - Scalar::one(),
+                "random" => Scalar::random(&mut rng),
+                _ => edge_scalar(m.classes[j] + 1 + (rng.next_u32() % 5) as usize, &mut rng),
+            };
+            if m2[j] == m.vals[j] {
+                continue;
+            }
+            c.distinct(&format!("{}/coord={}/{}", key, j, kind));
+            let info = json!({"chain": chain, "coordinate": j, "change": kind});
+            let _ = compare(c, &env, &format!("single-coordinate-change({})", kind), &sig, &m2, Some(false), &info);
+        }
+    }
+    // two coordinates exchanged (not a single-coordinate change: the oracle alone decides)
+    if N >= 2 {
+        let j = mi % (N - 1);
+        if m.vals[j] != m.vals[j + 1] {
+            let mut m2 = m.vals;
+            m2.swap(j, j + 1);
+            c.distinct(&format!("{}/swap={}", key, j));
+            let _ = compare(c, &env, "two-coordinates-exchanged", &sig, &m2, None, &info);
+        }
+    }
+
+    // --- another key
+    c.distinct(&format!("{}/other-key", key));
+    let _ = compare(c, &env2, "other-key", &sig, &m.vals, Some(false), &info);
+
+    // --- blinding factors: the matching one and wrong ones
+    let bfc = (mi / 2) % 4;
+    let bf = match bf_of_class(bfc, &mut rng) {
+        Ok(b) => b,
+        Err(e) => return c.inconclusive(&e),
+    };
+    let bfs = bf.as_scalar();
+    let bs = sig.blind_and_randomize(&mut rng, bf);
+    let binfo = json!({"chain": chain, "blinding_factor": hex(&bfs.to_bytes()), "bf_class": BF_NAMES[bfc]});
+    c.distinct(&format!("{}/bf={}/matching", key, BF_NAMES[bfc]));
+    let _ = compare(c, &env, "unblind-matching-blinding-factor", &bs.unblind(bf), &m.vals, Some(true), &binfo);
+    let wrongs = [
+        ("+1", bfs + Scalar::one()),
+        ("random", Scalar::random(&mut rng)),
+        ("zero", Scalar::zero()),
+        ("negated", -bfs),
+    ];
+    for (wname, ws) in wrongs.iter() {
+        if *ws == bfs {
+            continue;
+        }
+        let w = match bf_from_scalar(ws) {
+            Ok(w) => w,
+            Err(e) => return c.inconclusive(&e),
+        };
+        c.distinct(&format!("{}/bf={}/wrong={}", key, BF_NAMES[bfc], wname));
+        let _ = compare(c, &env, &format!("unblind-wrong-blinding-factor({})", wname), &bs.unblind(w), &m.vals, Some(false), &binfo);
+    }
+}
+
+// ------------------------------------------------------------------------------------------
+// signatures decoded from attacker bytes
+// ------------------------------------------------------------------------------------------
+
+fn sig_bytes(s1: &G1Affine, s2: &G1Affine) -> Vec<u8> {
+    let mut b = s1.to_compressed().to_vec();
+    b.extend_from_slice(&s2.to_compressed());
+    b
+}
+
+/// secret scalars of a key pair, read from its wire form (the harness plays a forger who knows them)
+fn secret_scalars<const N: usize>(kp: &KeyPair<N>) -> Result<(Scalar, Vec<Scalar>), String> {
+    let t = trace(kp)?;
+    let x = refs::sc(&t.fget("sk/x")?).ok_or("C07: sk/x is not a canonical scalar")?;
+    let mut ys = vec![];
+    for i in 0..N {
+        ys.push(refs::sc(&t.fget(&format!("sk/ys/[{}]", i))?).ok_or("C07: sk/ys entry is not a canonical scalar")?);
+    }
+    Ok((x, ys))
+}
+
+fn attacker_case<const N: usize>(c: &mut Ctx, name: &str, k: usize) {
+    let mut rng = c.rng(name);
+    let kp = keypair::<N>(c, k, false);
+    let pka = match PkAtoms::from_value(kp.public_key()) {
+        Ok(a) => a,
+        Err(e) => return c.inconclusive(&e),
+    };
+    let env = Env { pk: kp.public_key(), pka: &pka };
+    let secrets = match secret_scalars(&kp) {
+        Ok(s) => s,
+        Err(e) => return c.inconclusive(&e),
+    };
+    let reps = c.tier.pick(1usize, 4);
+    let mis: Vec<usize> = if c.tier.pick(true, false) { vec![0, 2, 9, 14] } else { (0..16).collect() };
+    for &mi in &mis {
+        for rep in 0..reps {
+            let m = edge_message::<N>(mi, &mut rng);
+            let msg = Message::new(m.vals);
+            let key = format!("attacker/N={}/key={}/msg={}/rep={}", N, k, m.name, rep);
+            let honest = msg.sign(&mut rng, &kp);
+            let ha = match sig_atoms(&honest) {
+                Ok(a) => a,
+                Err(e) => return c.inconclusive(&e),
+            };
+            // x + sum y_i m_i
+            let mut t = secrets.0;
+            for i in 0..N {
+                t += secrets.1[i] * m.vals[i];
+            }
+            let p = wire::rand_g1(&mut rng);
+            let r = Scalar::random(&mut rng);
+            let xr = Scalar::random(&mut rng);
+            let id = G1Affine::identity();
+            let mul = |a: &G1Affine, s: &Scalar| (G1Projective::from(*a) * *s).to_affine();
+            // (class, bytes, expectation fixed by the statement or by construction)
+            let cands: Vec<(&str, Vec<u8>, Option<bool>)> = vec![
+                ("decoded:honest-bytes", enc(&honest), Some(true)),
+                ("decoded:rerandomized-outside-the-api", sig_bytes(&mul(&ha.s1, &r), &mul(&ha.s2, &r)), Some(true)),
+                ("decoded:forged-with-secret-key(P,(x+sum yi mi)P)", sig_bytes(&p, &mul(&p, &t)), Some(true)),
+                ("decoded:(P,(x+sum yi mi+1)P)", sig_bytes(&p, &mul(&p, &(t + Scalar::one()))), Some(false)),
+                ("decoded:(P,xP)-random-x", sig_bytes(&p, &mul(&p, &xr)), None),
+                ("decoded:random-points", sig_bytes(&wire::rand_g1(&mut rng), &wire::rand_g1(&mut rng)), None),
+                ("decoded:sigma2-identity", sig_bytes(&p, &id), None),
+                ("decoded:honest-sigma2-negated", sig_bytes(&ha.s1, &(-ha.s2)), None),
+                ("decoded:honest-halves-exchanged", sig_bytes(&ha.s2, &ha.s1), None),
+                ("decoded:sigma1-identity", sig_bytes(&id, &ha.s2), Some(false)),
+                ("decoded:all-identity", sig_bytes(&id, &id), Some(false)),
+            ];
+            for (class, bytes, expect) in cands {
+                let info = json!({"bytes": hex(&bytes), "message_classes": m.name});
+                match dec::<Signature>(&bytes) {
+                    Ok(sig) => {
+                        c.count(&format!("{}:decodes", class), 1);
+                        c.distinct(&format!("{}/{}", key, class));
+                        let _ = compare(c, &env, class, &sig, &m.vals, expect, &info);
+                    }
+                    Err(_) => {
+                        // refusing to decode is never an alarm here (decode-time invariants are C15)
+                        c.count(&format!("{}:refused-at-decode", class), 1);
+                        if expect == Some(true) {
+                            c.inconclusive(&format!("C07: positive control {} does not decode", class));
+                        }
+                    }
+                }
+            }
+            if rep == 0 && mi == 9 {
+                c.sample(json!({"kind": "attacker bytes", "N": N, "key": k, "message_classes": m.name,
+                                "forged_with_secret_key": hex(&sig_bytes(&p, &mul(&p, &t)))}));
+            }
+        }
+    }
+}
+
+// ------------------------------------------------------------------------------------------
+// degenerate signatures produced through the API with chosen randomness
+// ------------------------------------------------------------------------------------------
+
+/// Run `f` once with an unscripted ScriptRng to learn where it draws 64-byte scalar samples,
+/// then once per such draw with 64 zero bytes injected there (Scalar::random -> 0).
+fn with_zero_scalar<T>(c: &mut Ctx, seed: [u8; 32], what: &str, f: impl Fn(&mut ScriptRng) -> T) -> (T, Vec<T>) {
+    let mut dry = ScriptRng::new(seed);
+    let plain = f(&mut dry);
+    let mut out = vec![];
+    for idx in dry.draws_of_len(64) {
+        let mut s = ScriptRng::new(seed);
+        s.inject(idx, vec![0u8; 64]);
+        let v = f(&mut s);
+        if s.consumed != 1 || s.misaligned != 0 {
+            c.inconclusive(&format!("C07: scripted zero sample not consumed in {}", what));
+            continue;
+        }
+        out.push(v);
+    }
+    if out.is_empty() {
+        c.inconclusive(&format!("C07: {} draws no 64-byte scalar sample, degenerate signature unreachable", what));
+    }
+    (plain, out)
+}
+
+fn degenerate_case<const N: usize>(c: &mut Ctx, name: &str, k: usize) {
+    let mut rng = c.rng(name);
+    let kp = keypair::<N>(c, k, false);
+    let pka = match PkAtoms::from_value(kp.public_key()) {
+        Ok(a) => a,
+        Err(e) => return c.inconclusive(&e),
+    };
+    let env = Env { pk: kp.public_key(), pka: &pka };
+    let m = edge_message::<N>(7 + k, &mut rng);
+    let msg = Message::new(m.vals);
+    let honest = msg.sign(&mut rng, &kp);
+    let mut seed = [0u8; 32];
+    rng.fill_bytes(&mut seed);
+
+    // messages on which the degenerate signatures are tried: the signed one, all EDGE constants, mixed
+    let mut tries: Vec<(String, [Scalar; N])> = vec![("signed-message".into(), m.vals)];
+    for mi in [0usize, 1, 2, 5, 6, 14] {
+        let t = edge_message::<N>(mi, &mut rng);
+        tries.push((t.name.clone(), t.vals));
+    }
+
+    let mut produced: Vec<(&str, Signature, Signature)> = vec![]; // (route, unscripted twin, scripted)
+
+    // route 1: Signature::randomize with r = 0
+    let (plain, scripted) = with_zero_scalar(c, seed, "Signature::randomize", |r| {
+        let mut s = honest;
+        s.randomize(r);
+        s
+    });
+    for s in scripted {
+        produced.push(("randomize(r=0)", plain, s));
+    }
+    // route 2: blind_and_randomize with r = 0, then unblind
+    let bf = BlindingFactor::new(&mut rng);
+    let (plain, scripted) = with_zero_scalar(c, seed, "Signature::blind_and_randomize", |r| honest.blind_and_randomize(r, bf).unblind(bf));
+    for s in scripted {
+        produced.push(("blind_and_randomize(r=0)>unblind", plain, s));
+    }
+    // route 3: BlindedSignature::new with u = 0, then unblind with the requester's factor
+    let builder = SignatureRequestProofBuilder::<N>::generate_proof_commitments(&mut rng, Message::new(m.vals), &[None; N], kp.public_key());
+    let challenge = ChallengeBuilder::new().with(&builder).finish();
+    let rbf = builder.message_blinding_factor();
+    let proof = builder.generate_proof_response(challenge);
+    match proof.verify_knowledge_of_opening(kp.public_key(), challenge) {
+        Some(vbm) => {
+            let (plain, scripted) = with_zero_scalar(c, seed, "BlindedSignature::new", |r| BlindedSignature::new(&kp, r, vbm.clone()).unblind(rbf));
+            for s in scripted {
+                produced.push(("BlindedSignature::new(u=0)>unblind", plain, s));
+            }
+            let (plain, scripted) = with_zero_scalar(c, seed, "VerifiedBlindedMessage::blind_sign", |r| vbm.clone().blind_sign(&kp, r).unblind(rbf));
+            for s in scripted {
+                produced.push(("blind_sign(u=0)>unblind", plain, s));
+            }
+        }
+        None => c.inconclusive("C07: honest signature request did not verify, blind-sign route unobservable"),
+    }
+
+    for (route, plain, deg) in produced {
+        let info = json!({"route": route});
+        // positive twin: the same call with the unscripted stream verifies on the message
+        c.distinct(&format!("degenerate/N={}/key={}/{}/twin", N, k, route));
+        let _ = compare(c, &env, "degenerate-route:unscripted-twin", &plain, &m.vals, Some(true), &info);
+        let a = match sig_atoms(&deg) {
+            Ok(a) => a,
+            Err(e) => {
+                c.inconclusive(&e);
+                continue;
+            }
+        };
+        let all_identity = bool::from(a.s1.is_identity()) && bool::from(a.s2.is_identity());
+        if all_identity {
+            c.count(&format!("all-identity-signature-reached-via:{}", route), 1);
+        } else {
+            // the route no longer yields the degenerate value: nothing to alarm about, but the
+            // class the property names was not observed on this route
+            c.inconclusive(&format!("C07: zero randomness in {} did not give the all-identity signature", route));
+        }
+        // further API steps on the degenerate value keep it degenerate; all must be rejected
+        let mut again = deg;
+        again.randomize(&mut rng);
+        let again2 = deg.blind_and_randomize(&mut rng, bf).unblind(bf);
+        for (vname, v) in [("as-produced", deg), ("then-randomize", again), ("then-blind>unblind", again2)] {
+            for (tname, t) in &tries {
+                if vname != "as-produced" && tname != "signed-message" {
+                    continue;
+                }
+                c.distinct(&format!("degenerate/N={}/key={}/{}/{}/msg={}", N, k, route, vname, tname));
+                let class = if all_identity { "all-identity-signature" } else { "zero-randomness-signature" };
+                let _ = compare(c, &env, class, &v, t, if all_identity { Some(false) } else { None }, &json!({"route": route, "variant": vname}));
+                if all_identity && vname == "as-produced" {
+                    // what makes the well-formedness conjunct matter: the pairing equation alone holds
+                    if ps_pairing_only(&pka, &a.s1, &a.s2, t) {
+                        c.count("all-identity-signature:pairing-equation-alone-holds", 1);
+                    }
+                }
+            }
+        }
+        if route == "randomize(r=0)" {
+            c.sample(json!({"kind": "degenerate signature through the API", "N": N, "route": route,
+                            "sigma1": hex(&a.b1), "sigma2": hex(&a.b2)}));
+        }
+    }
+}
+
+fn run_n<const N: usize>(c: &mut Ctx, keys: usize, msgs: usize) {
+    for k in 0..keys {
+        for mi in 0..msgs {
+            let name = format!("chain/N={}/key={}/msg={}", N, k, mi);
+            c.case(&name, |c| chain_case::<N>(c, &name, k, mi));
+        }
+        let name = format!("attacker/N={}/key={}", N, k);
+        c.case(&name, |c| attacker_case::<N>(c, &name, k));
+        let name = format!("degenerate/N={}/key={}", N, k);
+        c.case(&name, |c| degenerate_case::<N>(c, &name, k));
+    }
+}
 
 pub fn run(c: &mut Ctx) {
-    c.inconclusive("C07: monitor not written yet");
+    c.note(
+        "rule",
+        json!("For every N in {1,2,3,5,8,13} and every key pair k: (a) chain cases, one per message number: message entries from EDGE={0,1,q-1,small,2^63-1,2^63,random} (numbers 0-6 constant class, 7-13 cyclic layouts, 14+ random class per coordinate); the signature starts from sign (message number + key number even) or request-proof -> blind_sign -> unblind (odd), followed by 0-3 random steps of randomize / blind_and_randomize(bf in {0,1,q-1,random}) [-> BlindedSignature::randomize] -> unblind, verified after every step; the final signature is compared on the right message, on every coordinate changed by +1 and to a random value (plus -1 / another EDGE value on one coordinate; all coordinates in the thorough tier), on two exchanged coordinates, under a second key, and after blinding again and unblinding with the matching factor and with wrong ones (+1, random, 0, negated). (b) attacker cases: signatures decoded from bytes (honest bytes, re-randomised outside the API, forged with the secret scalars read from the key pair's wire form, off by one, (P,xP), random points, sigma2 = identity, negated / exchanged halves, sigma1 = identity and all-identity which must not decode). (c) degenerate cases: ScriptRng returns 64 zero bytes at the scalar draw of randomize / blind_and_randomize / BlindedSignature::new / blind_sign, the resulting all-identity signature is tried on seven messages and after further API steps, next to its unscripted twin. Every verify call is compared with ps_verify_ref on atoms read from the wire. Distinct = (N, key, per-coordinate message classes, derivation chain, check) tuple."),
+    );
+    let keys = c.tier.pick(3usize, 10);
+    let msgs = c.tier.pick(24usize, 80);
+    run_n::<1>(c, keys, msgs);
+    run_n::<2>(c, keys, msgs);
+    run_n::<3>(c, keys, msgs);
+    run_n::<5>(c, keys, msgs);
+    run_n::<8>(c, keys, msgs);
+    run_n::<13>(c, keys, msgs);
 }
